@@ -118,14 +118,12 @@ func init() {
 		e(hp, "Heap.percolateDown", "downLeftCond", "if[2].cond", "Bool", B("lt"), map[string]string{"h.less(left,i)": "lt"}),
 		p(hp, "Heap.percolateDown", "downLeftSwaps", "if[2].body", "h.swap(left, i)"),
 		e(hp, "Heap.percolateDown", "downLeftNext", "if[2].body/assign[i][0].rhs", "Int", I("left"), map[string]string{"left": "left"}),
-		p(hp, "Heap.percolateDown", "downLeftStops", "if[2].else", "return"),
 		e(hp, "Heap.percolateDown", "downLeastInit", "assign[least][0].rhs", "Int", I("left", "right"), map[string]string{"left": "left", "right": "right"}),
 		e(hp, "Heap.percolateDown", "downPickRight", "if[3].cond", "Bool", B("lt"), map[string]string{"h.less(right,left)": "lt"}),
 		e(hp, "Heap.percolateDown", "downLeastAlt", "if[3].body/assign[least][0].rhs", "Int", I("left", "right"), map[string]string{"left": "left", "right": "right"}),
 		e(hp, "Heap.percolateDown", "downSwapCond", "if[4].cond", "Bool", B("lt"), map[string]string{"h.less(least,i)": "lt"}),
 		p(hp, "Heap.percolateDown", "downSwaps", "if[4].body", "h.swap(least, i)"),
 		e(hp, "Heap.percolateDown", "downNext", "if[4].body/assign[i][0].rhs", "Int", I("least"), map[string]string{"least": "least"}),
-		p(hp, "Heap.percolateDown", "downStops", "if[4].else", "return"),
 
 		// swap / notifyIndexChanged / less
 		p(hp, "Heap.swap", "swapExchanges", "", "(h.a)[i], (h.a)[j] = (h.a)[j], (h.a)[i]"),
@@ -161,7 +159,6 @@ func init() {
 		p(hp, "Heap.Pop", "popNotifies", "if[0].body", "h.notifyIndexChanged(0)"),
 		p(hp, "Heap.Pop", "popSiftsDown", "", "h.percolateDown(0)"),
 		unconditional(mod, hp, "Heap.Pop", "popBumpsGen", "h.gen++"),
-		p(hp, "Heap.Pop", "popReturnsItem", "", "return item"),
 
 		// RemoveAt
 		p(hp, "Heap.RemoveAt", "removeAtMovesLast", "", "h.a[i] = h.a[len(h.a)-1]"),
